@@ -74,15 +74,20 @@ class AvroWriter(AbstractWriter):
         self.writer.write(r._packdict())
 
     def flush(self):
-        if not self.writer:
-            self.writer = fastavro.write.Writer(
-                self.fp,
-                fastavro.parse_schema({"type": "record", "name": "empty"}),
-                codec=self.codec,
-            )
-        self.writer.flush()
+        if self.writer:
+            self.writer.flush()
 
     def close(self) -> None:
+        if self.fp:
+            if not self.writer:
+                # No records were written, write the header of an empty container so the output is valid
+                self.writer = fastavro.write.Writer(
+                    self.fp,
+                    fastavro.parse_schema({"type": "record", "name": "empty"}),
+                    codec=self.codec,
+                )
+            # The block with the last records is still buffered in the fastavro writer
+            self.writer.flush()
         if self.fp and not is_stdout(self.fp):
             self.fp.close()
         self.fp = None
